@@ -20,7 +20,9 @@ CHECK = dict(
           "mutations of paths that exist in the layout (through links too); 6 symlink layouts "
           "(none, file links, directory links, climbing relative targets, chains, loops); "
           "distinct = distinct (function, layout, guest path); non-trivial = the guest path has a "
-          "'..' component or reaches a symbolic link"),
+          "'..' component or reaches a symbolic link; plus histories of 24 readlink/exists/open_ calls on ONE "
+          "FileSystem object over 5 guest paths: the kernel's name of the opened descriptor (/proc/self/fd) and "
+          "the returned values are compared with a fresh object's resolution of the same argument"),
     assumptions=["os.path.realpath on the scratch tree is the definition of where a host path leads",
                  "for follow_link=False the final component is not followed by the oracle either "
                  "(the link itself must live inside the sandbox)",
